@@ -487,6 +487,34 @@ func c20ComesBack(l *Lab, rep *Report) {
 	if st0 == 200 {
 		rep.Violate("C20/reply-not-from-kdc/comes-back", "a 200 was returned while the only KDC of the realm refused connections", nil)
 	}
+	// many requests for a realm nobody configured (each is answered), then one for a configured realm
+	for i := 0; i < 24; i++ {
+		payload := GenStream(uint64(9000+i), 40)
+		framed := make([]byte, 4+len(payload))
+		binary.BigEndian.PutUint32(framed, uint32(len(payload)))
+		copy(framed[4:], payload)
+		r, _, err := w.post(KDCProxyMessage(framed, "NOPE.TEST", -1), nil, "POST", 30*time.Second)
+		if err != nil {
+			rep.Violate("C20/no-answer/unknown-realm-repeated", fmt.Sprintf("request %d for an unknown realm got no HTTP response: %v", i, err), nil)
+			return
+		}
+		rep.Eval(HashStr("unknown-realm-repeated", i, r.Status))
+	}
+	{
+		payload := GenStream(9100, 60)
+		framed := make([]byte, 4+len(payload))
+		binary.BigEndian.PutUint32(framed, uint32(len(payload)))
+		copy(framed[4:], payload)
+		r, _, err := w.post(KDCProxyMessage(framed, "OTHER.TEST", -1), nil, "POST", 30*time.Second)
+		if err != nil || r.Status != 200 {
+			st := -1
+			if r != nil {
+				st = r.Status
+			}
+			rep.Violate("C20/no-reply-relayed/after-unknown-realm-requests", fmt.Sprintf("after 24 requests for an unknown realm, a request for a configured realm with a replying KDC: status %d err %v", st, err), nil)
+			return
+		}
+	}
 	if err := k.ComeBack(); err != nil {
 		rep.Inconclusive("comes-back: cannot listen again: " + err.Error())
 		return
